@@ -95,7 +95,7 @@ pub fn run(cx: &mut Ctx) {
             },
             Some(Shape::KV) => match cx.rng.below(5) { 0 => Step::DistinctPerKey, 1 => Step::TopKPerKey(cx.rng.below(4)), _ => Step::CombineValues(gen_comb(&mut cx.rng, false)) },
             Some(Shape::KG) => Step::CombineValuesLifted(gen_comb(&mut cx.rng, true)),
-            None => continue,
+            None | Some(Shape::R) => continue,
         };
         p.steps.push(step);
         let choices = partition_choices(p.src.len());
